@@ -266,7 +266,7 @@ func (v *Verifier) applyContract(st *State, fc *FuncContract, sig *types.Signatu
 	for i, cl := range fc.Requires {
 		t := v.evalBoolIn(st, env, cl)
 		v.oblige(st, "pre", fmt.Sprintf("%s:%s", what, clauseLabel(cl, i)), t, ins.Pos(), cl)
-		st.assume(t)
+		st.assumeTagged(t, cl.Label)
 	}
 	old := st.snapshot()
 	switch {
@@ -293,7 +293,7 @@ func (v *Verifier) applyContract(st *State, fc *FuncContract, sig *types.Signatu
 	v.bindResults(env, sig, fc, res)
 	for _, cl := range fc.Ensures {
 		t := v.evalBoolIn(st, env, cl)
-		st.assume(t)
+		st.assumeTagged(t, cl.Label)
 	}
 	return res
 }
@@ -513,14 +513,14 @@ func (v *Verifier) doAppend(st *State, s, t Value, stype types.Type, ins ssa.Ins
 	// copyIn writes t's elements at s.off + len(s)*es .. in block blk
 	copyIn := func(st *State, blk *Term) {
 		if tIsString {
-			inner := Select(st.memOf(KI), blk)
+			inner := Select(st.memOf(KY), blk)
 			fresh := v.e.sy.Fresh("app", ArraySort(SInt, SInt))
 			i := v.e.sy.Fresh("i", SInt)
 			base := Add(s.L[1], s.L[2])
 			st.assume(Forall([]*Term{i}, Ite(And(Ge(i, base), Lt(i, Add(base, n))),
 				Eq(mk("select", SInt, fresh, i), v.e.sy.App("str_at", SInt, t.L[0], Sub(i, base))),
 				Eq(mk("select", SInt, fresh, i), mk("select", SInt, inner, i)))))
-			st.mem[KI] = st.define("MI", Store(st.memOf(KI), blk, fresh))
+			st.mem[KY] = st.define("MY", Store(st.memOf(KY), blk, fresh))
 			return
 		}
 		if nv, ok := n.IsInt(); ok && nv.IsInt64() && nv.Int64() <= 8 {
@@ -531,7 +531,7 @@ func (v *Verifier) doAppend(st *State, s, t Value, stype types.Type, ins ssa.Ins
 			return
 		}
 		// symbolic count: quantified description per kind
-		for _, kd := range []Kind{KI, KB, KS, KR} {
+		for _, kd := range allKinds {
 			if !kinds[kd] {
 				continue
 			}
@@ -541,9 +541,9 @@ func (v *Verifier) doAppend(st *State, s, t Value, stype types.Type, ins ssa.Ins
 			i := v.e.sy.Fresh("i", SInt)
 			base := Add(s.L[1], Mul(s.L[2], IntLit(es)))
 			end := Add(base, Mul(n, IntLit(es)))
-			st.assume(Forall([]*Term{i}, Ite(And(Ge(i, base), Lt(i, end)),
+			st.assumeTagged(Forall([]*Term{i}, Ite(And(Ge(i, base), Lt(i, end)),
 				Eq(mk("select", kd.Sort(), fresh, i), mk("select", kd.Sort(), src, Add(t.L[1], Sub(i, base)))),
-				Eq(mk("select", kd.Sort(), fresh, i), mk("select", kd.Sort(), inner, i)))))
+				Eq(mk("select", kd.Sort(), fresh, i), mk("select", kd.Sort(), inner, i)))), "append")
 			st.mem[kd] = st.define("M"+kd.String(), Store(st.memOf(kd), blk, fresh))
 		}
 	}
@@ -565,8 +565,8 @@ func (v *Verifier) doAppend(st *State, s, t Value, stype types.Type, ins ssa.Ins
 	// reallocation
 	if !fits.IsTrue() {
 		st2.assume(Not(fits))
-		blk := st2.allocBlock()
-		for _, kd := range []Kind{KI, KB, KS, KR} {
+		blk := st2.allocTyped(types.NewSlice(elem))
+		for _, kd := range allKinds {
 			if !kinds[kd] {
 				continue
 			}
@@ -660,6 +660,7 @@ func (v *Verifier) lockAcquire(st *State, muExpr ssa.Value, mu Value, ins ssa.In
 	}
 	v.havocGuarded(st, owner, named, tc, field)
 	v.assumeTypeInv(st, owner, named, tc)
+	st.acq = st.snapshot()
 }
 
 func (v *Verifier) lockRelease(st *State, muExpr ssa.Value, mu Value, ins ssa.Instruction) {
@@ -703,6 +704,7 @@ func (v *Verifier) condWait(st *State, condExpr ssa.Value, cond Value, ins ssa.I
 	v.assertTypeInv(st, owner, named, tc, "wait", ins.Pos())
 	v.havocGuarded(st, owner, named, tc, mu)
 	v.assumeTypeInv(st, owner, named, tc)
+	st.acq = st.snapshot()
 }
 
 func (v *Verifier) havocGuarded(st *State, owner Value, named *types.Named, tc *TypeContract, mu string) {
@@ -757,7 +759,7 @@ func (v *Verifier) typeInvEnv(st *State, owner Value, tc *TypeContract) *Env {
 func (v *Verifier) assumeTypeInv(st *State, owner Value, named *types.Named, tc *TypeContract) {
 	env := v.typeInvEnv(st, owner, tc)
 	for _, cl := range tc.Invariant {
-		st.assume(v.evalBoolIn(st, env, cl))
+		st.assumeTagged(v.evalBoolIn(st, env, cl), cl.Label)
 	}
 }
 
@@ -868,7 +870,7 @@ func (v *Verifier) assertLoopInv(st *State, li *LoopInfo, phase string) {
 func (v *Verifier) assumeLoopInv(st *State, li *LoopInfo) {
 	env := v.loopEnv(st)
 	for _, cl := range v.loopClauses(li) {
-		st.assume(v.evalBoolIn(st, env, cl))
+		st.assumeTagged(v.evalBoolIn(st, env, cl), cl.Label)
 	}
 }
 
@@ -966,8 +968,47 @@ func (v *Verifier) checkPost(st *State, r *ssa.Return, res Value) {
 	env.old = v.entry
 	env.atReturn = true
 	v.bindResults(env, v.fn.Signature, v.fc, res)
+	for _, ga := range v.fc.GhostAssigns {
+		v.ghostAssign(st, env, ga)
+	}
 	for i, cl := range v.fc.Ensures {
 		t := v.evalBoolIn(st, env, cl)
 		v.oblige(st, "post", clauseLabel(cl, i), t, r.Pos(), cl)
 	}
+}
+
+// ghostAssign executes "ghost lhs = rhs" at function exit.
+func (v *Verifier) ghostAssign(st *State, env *Env, ga GhostAssign) {
+	defer func() {
+		if r := recover(); r != nil {
+			if ce, ok := r.(cevalError); ok {
+				v.fail("ghost assignment %q: %s", ga.Src, ce.msg)
+			}
+			panic(r)
+		}
+	}()
+	rhs := env.eval(st, ga.RHS)
+	// map element
+	if ix, ok := ga.LHS.(CIndex); ok {
+		m := env.eval(st, ix.X)
+		if mt, ok := m.T.Underlying().(*types.Map); ok {
+			key := env.eval(st, ix.I)
+			v.mapSet(st, mt, m.L[0], key, rhs)
+			return
+		}
+	}
+	loc := env.loc(st, ga.LHS)
+	if len(rhs.L) != loc.size {
+		if rhs.T == nilType {
+			rhs = v.e.zeroValue(loc.typ)
+		} else {
+			v.fail("ghost assignment %q: shape mismatch", ga.Src)
+		}
+	}
+	rhs.T = loc.typ
+	if loc.ghostKey != "" {
+		v.ghostStore(st, loc.ghostKey, loc.ghostFld, loc.blk, loc.off, rhs)
+		return
+	}
+	st.storeAt(loc.blk, loc.off, rhs)
 }
